@@ -1542,6 +1542,34 @@ def _coalesce_copies(fn: ast.FunctionDef, ref_locals: list[str], log: list[str])
                     x_before = [n for n in names if n.id == x and order[id(n)] < here]
                     t_after = [n for n in names if n.id == t and order[id(n)] > here]
                     if len(x_stores) != 1 or x_before or t_after:
+                        # the same copy in several branches (`if c: ...; x = t` / `else: ...; x = t`, left by inlining a helper whose arms both bind t):
+                        # every store of x is such a copy, x is never read before the first, t is read only by these copies
+                        copies = [s_ for s_ in [fn, *_walk_fn(fn)] if isinstance(s_, ast.Assign) and len(s_.targets) == 1 and isinstance(s_.targets[0], ast.Name)
+                                  and s_.targets[0].id == x and isinstance(s_.value, ast.Name) and s_.value.id == t]
+                        copy_vals = {id(s_.value) for s_ in copies}
+                        first = min((order[id(s_.value)] for s_ in copies), default=here)
+                        def _t_rebound_after(copy_st) -> bool:
+                            for par3 in [fn, *_walk_fn(fn)]:
+                                for fld3 in ("body", "orelse", "finalbody"):
+                                    blk3 = getattr(par3, fld3, None)
+                                    if isinstance(blk3, list) and any(z is copy_st for z in blk3):
+                                        i3 = next(k for k, z in enumerate(blk3) if z is copy_st)
+                                        return any(isinstance(y, ast.Name) and y.id == t and isinstance(y.ctx, ast.Store) for z in blk3[i3 + 1:] for y in ast.walk(z))
+                            return True
+                        last = max((order[id(s_.value)] for s_ in copies), default=here)
+                        if len(copies) >= 2 and len(copies) == len(x_stores) and not any(_t_rebound_after(c_) for c_ in copies) \
+                                and not any(n.id == t and isinstance(n.ctx, ast.Store) and order[id(n)] > last for n in names) \
+                                and not any(n.id == x and isinstance(n.ctx, ast.Load) and order[id(n)] < first for n in names):
+                            # (x is bound by these copies only, so wherever t is read after a copy x holds the same object: reads of t may stay reads of x)
+                            for par2 in [fn, *_walk_fn(fn)]:
+                                for fld2 in ("body", "orelse", "finalbody"):
+                                    blk2 = getattr(par2, fld2, None)
+                                    if isinstance(blk2, list) and any(c_ in blk2 for c_ in copies):
+                                        blk2[:] = [z for z in blk2 if not any(z is c_ for c_ in copies)] or [ast.copy_location(ast.Pass(), st)]
+                            _Rename({t: x}).visit(fn)
+                            log.append(f"coalesced the branch-wise copies `{x} = {t}`")
+                            progressed = changed = True
+                            break
                         continue
                     # the definition(s) of t must not sit inside a loop that the copy is outside of (the value would be the last iteration's: still the same object) - fine
                     blk.remove(st)
